@@ -13,7 +13,10 @@ mod parse;
 mod lex;
 mod map;
 mod uf2;
-mod bins;
+mod seg;
+mod scope;
+mod trias;
+mod tridas;
 
 use common::*;
 
@@ -23,14 +26,17 @@ fn dispatch(id: &str, cx: &mut Cx)
 	{
 		"C01" | "C02" | "C03" => codec::run(id, cx),
 		"C04" | "C19" => front::run(id, cx),
-		"C05" | "C06" | "C13" | "C14" => asm::run(id, cx),
+		"C05" | "C06" => asm::run(id, cx),
+		"C13" => seg::run(id, cx),
+		"C14" => scope::run(id, cx),
 		"C07" | "C08" => simp::run(id, cx),
 		"C09" => parse::run(id, cx),
 		"C10" | "C11" | "C12" => lex::run(id, cx),
 		"C15" => map::run(id, cx),
 		"C16" => uf2::run(id, cx),
 		"C17" => crc::run(id, cx),
-		"C18" | "C20" => bins::run(id, cx),
+		"C18" => trias::run(id, cx),
+		"C20" => tridas::run(id, cx),
 		_ => panic!("unknown property {id}"),
 	}
 }
